@@ -6,12 +6,12 @@ From NixV Require Import Base.Prelude H5.Store Gen.Touch Pure.Bfs.
 Open Scope N_scope.
 
 Inductive ekind := KFile | KBlock | KGroup | KDataArray | KTag | KMultiTag | KFeature
-                 | KSource | KSection | KProperty.
+                 | KSource | KSection | KProperty | KDataFrame.
 Definition ekind_eqb (a b : ekind) : bool :=
   match a, b with
   | KFile, KFile | KBlock, KBlock | KGroup, KGroup | KDataArray, KDataArray | KTag, KTag
   | KMultiTag, KMultiTag | KFeature, KFeature | KSource, KSource | KSection, KSection
-  | KProperty, KProperty => true
+  | KProperty, KProperty | KDataFrame, KDataFrame => true
   | _, _ => false
   end.
 
@@ -80,6 +80,7 @@ Definition s_data_arrays : str := [100;97;116;97;95;97;114;114;97;121;115].
 Definition s_tags : str := [116;97;103;115].
 Definition s_multi_tags : str := [109;117;108;116;105;95;116;97;103;115].
 Definition s_sources : str := [115;111;117;114;99;101;115].
+Definition s_data_frames : str := [100;97;116;97;95;102;114;97;109;101;115].
 Definition s_sections : str := [115;101;99;116;105;111;110;115].
 Definition s_properties : str := [112;114;111;112;101;114;116;105;101;115].
 Definition s_features : str := [102;101;97;116;117;114;101;115].
@@ -99,9 +100,9 @@ Definition s_value : str := [118;97;108;117;101].
 
 (* containers that hold entities (Container) *)
 Inductive ckind := CBlocks | CSections | CGroups | CDataArrays | CTags | CMultiTags | CSources
-                 | CProperties | CFeatures.
+                 | CProperties | CFeatures | CDataFrames.
 (* lists of links (LinkContainer / SourceLinkContainer) *)
-Inductive lkind := LDataArrays | LTags | LMultiTags | LReferences | LSources.
+Inductive lkind := LDataArrays | LTags | LMultiTags | LReferences | LSources | LDataFrames.
 (* single links *)
 Inductive rkind := RMetadata | RPositions | RExtents | RFeatureData | RSectionLink.
 (* settable attributes *)
@@ -112,6 +113,7 @@ Definition cname (c : ckind) : str :=
   | CBlocks => s_data | CSections => s_sections | CGroups => s_groups
   | CDataArrays => s_data_arrays | CTags => s_tags | CMultiTags => s_multi_tags
   | CSources => s_sources | CProperties => s_properties | CFeatures => s_features
+  | CDataFrames => s_data_frames
   end.
 (* the group name of the container under a parent of kind [pk]: the file keeps its sections
    in "metadata" *)
@@ -121,13 +123,13 @@ Definition ckind_item (c : ckind) : ekind :=
   match c with
   | CBlocks => KBlock | CSections => KSection | CGroups => KGroup | CDataArrays => KDataArray
   | CTags => KTag | CMultiTags => KMultiTag | CSources => KSource | CProperties => KProperty
-  | CFeatures => KFeature
+  | CFeatures => KFeature | CDataFrames => KDataFrame
   end.
 (* which parents have which containers *)
 Definition has_container (pk : ekind) (c : ckind) : bool :=
   match pk, c with
   | KFile, (CBlocks | CSections) => true
-  | KBlock, (CGroups | CDataArrays | CTags | CMultiTags | CSources) => true
+  | KBlock, (CGroups | CDataArrays | CTags | CMultiTags | CSources | CDataFrames) => true
   | KSource, CSources => true
   | KSection, (CSections | CProperties) => true
   | (KTag | KMultiTag), CFeatures => true
@@ -136,22 +138,22 @@ Definition has_container (pk : ekind) (c : ckind) : bool :=
 Definition lname (l : lkind) : str :=
   match l with
   | LDataArrays => s_data_arrays | LTags => s_tags | LMultiTags => s_multi_tags
-  | LReferences => s_references | LSources => s_sources
+  | LReferences => s_references | LSources => s_sources | LDataFrames => s_data_frames
   end.
 Definition lkind_item (l : lkind) : ekind :=
   match l with
   | LDataArrays | LReferences => KDataArray | LTags => KTag | LMultiTags => KMultiTag
-  | LSources => KSource
+  | LSources => KSource | LDataFrames => KDataFrame
   end.
 (* the block-level container a link list draws from *)
 Definition lkind_store (l : lkind) : ckind :=
   match l with
   | LDataArrays | LReferences => CDataArrays | LTags => CTags | LMultiTags => CMultiTags
-  | LSources => CSources
+  | LSources => CSources | LDataFrames => CDataFrames
   end.
 Definition has_list (k : ekind) (l : lkind) : bool :=
   match k, l with
-  | KGroup, (LDataArrays | LTags | LMultiTags | LSources) => true
+  | KGroup, (LDataArrays | LTags | LMultiTags | LSources | LDataFrames) => true
   | (KTag | KMultiTag), (LReferences | LSources) => true
   | KDataArray, LSources => true
   | _, _ => false
@@ -285,13 +287,13 @@ Definition api_create (ph : N) (c : ckind) (name type : tok) (payload : list Z) 
       guard (negb dup) EDup ;;;
       r <- entity_create_new pa cg name type now ;;
       new_handle (mkH (fst r) KSource pa (match hk p with KBlock => pa | _ => hown2 p end))
-  | CGroups | CDataArrays | CTags =>
+  | CGroups | CDataArrays | CTags | CDataFrames =>
       check_name_type name type ;;;
       dup <- rd (fun s => in_group s (child s pa (TS cg)) name) ;;
       guard (negb dup) EDup ;;;
       r <- entity_create_new pa cg name type now ;;
       (match c with
-       | CDataArrays => write_payload (fst r) s_data payload       (* create_dataset + write_direct *)
+       | CDataArrays | CDataFrames => write_payload (fst r) s_data payload       (* create_dataset + write_direct *)
        | CTags => write_payload (fst r) s_position payload ;;; auto_touch_for c_Tag s_position (fst r) now
        | _ => ret tt
        end) ;;;
@@ -820,6 +822,7 @@ Definition copy_container (dk xk : ekind) : option ckind :=
   match dk, xk with
   | KFile, KBlock => Some CBlocks
   | KBlock, KDataArray => Some CDataArrays
+  | KBlock, KDataFrame => Some CDataFrames
   | KBlock, KTag => Some CTags
   | KBlock, KMultiTag => Some CMultiTags
   | KFile, KSection | KSection, KSection => Some CSections
